@@ -336,5 +336,18 @@ def f3_resolver_shape(ctx: Ctx) -> None:
     for nd in need:
         hit = [s for s in src if nd in s and 'resolved = object' in s]
         (ctx.ok if hit else ctx.bad)(R, h, h.node, f'`{nd}` forces object' if hit else f'the mixing condition `{nd}` no longer forces an object array', key=f'prepare:{nd[:30]}')
-    big = any('value_type == int and abs(v) > INT_MAX_COERCIBLE_TO_FLOAT' in s for s in src)
-    (ctx.ok if big else ctx.bad)(R, h, h.node, 'big ints are flagged' if big else 'big-int detection changed', key='prepare:big-int')
+    # order independence of the scan: a has_* flag is set under a test of the current element only, never of other flags
+    flags_set = []
+    for n in walk_local(h.node):
+        if isinstance(n, ast.Assign) and isinstance(n.targets[0], ast.Name) and n.targets[0].id.startswith('has_') \
+                and isinstance(n.value, ast.Constant) and n.value.value is True:
+            flags_set.append(n)
+    from sfa.rules.frozen import _enclosing_tests
+    loops = [n for n in walk_local(h.node) if isinstance(n, ast.For) and norm(n.iter) == 'v_iter']
+    ctx.require(bool(loops) and len(flags_set) >= 6, 'prepare_iter_for_array scans its values and sets its flags')
+    for a in flags_set:
+        tests = [t for t, pol in _enclosing_tests(loops[0], a)]
+        dep = sorted({x.id for t in tests for x in ast.walk(t) if isinstance(x, ast.Name) and x.id.startswith('has_')})
+        (ctx.ok if not dep else ctx.bad)(R, h, a, f'{a.targets[0].id} is decided from the current element alone' if not dep else
+                                         f'{a.targets[0].id} is only set when {dep} was already seen: whether a mix is detected depends on the order of the elements '
+                                         '(e.g. a big int before the first float is missed and silently becomes a float)', key=f'prepare:flag-independent:{a.targets[0].id}')
